@@ -896,9 +896,28 @@ def r18_1_who_reads(ctx, prog, rule="R18.1"):
     ctx.floor(rule, "option fields found", len(readers), 4)
     callers = {"validate": set(), "with_unknown_data": set(), "key": set()}
     ctx_callers = set()
+    def fn_items(x):
+        """paths of the functions an operand tree mentions as values (`map_or(false, DecoderContext::validate)`)"""
+        out = []
+        if isinstance(x, dict):
+            fn = x.get("fn")
+            if isinstance(fn, dict):
+                out.append(fn.get("rpath") or fn.get("full") or "")
+            for v in x.values():
+                out += fn_items(v)
+        elif isinstance(x, list):
+            for v in x:
+                out += fn_items(v)
+        return out
     for b in prog.bodies.values():
         if b.crate != "stun_rs":
             continue
+        # a method handed to a combinator as a function item is a call made on this function's behalf
+        for blk in b.blocks:
+            for pth in fn_items(blk.get("stmts", [])) + fn_items({k: v for k, v in blk["term"].items() if k != "func"}):
+                m = re.search(r"^stun_rs::context::DecoderContext::(validate|with_unknown_data|key)$", pth)
+                if m:
+                    callers[m.group(1)] |= owning_functions(prog, b)
         for c in b.calls():
             m = re.search(r"^stun_rs::context::DecoderContext::(validate|with_unknown_data|key)$", c.callee_path)
             if m:
@@ -1186,7 +1205,7 @@ def r18_6_unknown_new(ctx, prog, rule="R18.6"):
     ctx.fn(info["body"])
     seen = {}
     # conversions only: Into::into of the argument, and the function items given to Option::map (Vec::from, Arc::new)
-    allowed = re.compile(r"Into<.*>>::into$|^T::into$|::into$|^<std::vec::Vec<u8> as std::convert::From<.*>>::from$|^std::sync::Arc::<.*>::new$")
+    allowed = re.compile(r"Into<.*>>::into$|^T::into$|::into$|^<std::vec::Vec<u8> as std::convert::From<.*>>::from$|^std::sync::Arc::<.*>::new$|^std::slice::<impl \[u8\]>::to_vec$|^<\[u8\] as std::borrow::ToOwned>::to_owned$")
     for pa in paths:
         given = None
         for nme, v in pa.choices:
